@@ -1,3 +1,4 @@
+mod codec;
 mod common;
 mod algos;
 mod enc;
@@ -46,6 +47,12 @@ fn main() {
             let mut log = Log::to_path(&out);
             let mut o = algos::Out { log: &mut log, matrix: Default::default() };
             algos::c13_sweep(seed, args.num("pairs", 300) as usize, &mut o);
+            eprintln!("MATRIX {}", serde_json::to_string(&o.matrix).unwrap());
+        }
+        "codec-sweep" => {
+            let mut log = Log::to_path(&out);
+            let mut o = algos::Out { log: &mut log, matrix: Default::default() };
+            codec::c18_sweep(seed, args.num("small", 40) as usize, args.num("big", 14) as usize, args.num("dots", 12) as usize, &mut o);
             eprintln!("MATRIX {}", serde_json::to_string(&o.matrix).unwrap());
         }
         "algo-replay" => {
